@@ -1,6 +1,6 @@
 /-
   C13 — abandoning the event loop at any event releases the socket (and the selector).
-  Property theorems only (helper lemmas: Proofs/Step.lean, Proofs/Release.lean).
+  Property theorems only (helper lemmas: Proofs/Step.lean, Proofs/Release.lean, Proofs/SelFail.lean).
 
   In the model, abandoning the generator (by `close()`, by dropping it, by an exception raised
   in the handler, or by an exception leaving a `with` block) is the application action
@@ -9,6 +9,7 @@
   index and every mechanism" is therefore "for every `cfg`, `react`, `env`".
 -/
 import Lomond.Proofs.Release
+import Lomond.Proofs.SelFail
 import Lomond.Generated.Facts
 
 namespace Lomond.C13
@@ -63,6 +64,49 @@ example :
       = [.sockClose, .ev (.connected false), .wr [], .ev .connecting] := by
   decide
 
+
+/-- **Abandonment when the selector could not be created.**  When `self._selector_cls(sock)` raises
+    right after `Connected` (`cfg.connect = .selFail proxy`) — for every configuration, every
+    environment script and every application, in particular one that stops iterating at `Connecting`,
+    at `Connected` or at the `Disconnected('error')` that reports the failure, by any mechanism —
+    the connection ends with no selector open, `selector.close()` was never called (there is no
+    selector object: `finally` tests `selector is not None`), and, in the repaired `run()`, with
+    the socket closed. -/
+theorem abandon_releases_without_selector (cfg : Cfg) (react : React) (env : List EnvStep) (proxy : Bool)
+    (hs : cfg.connect = .selFail proxy) :
+    (runAll cfg react env).selOpen = false ∧ Obs.selClose ∉ (runAll cfg react env).trace ∧
+    (cfg.v.cleanup = true → (runAll cfg react env).sockOpen = false) := by
+  have h := Monitor.runAll_noSelector cfg react env (fun p hp => by rw [hs] at hp; cases hp)
+  exact ⟨h.1, h.2, fun hc => (abandon_releases cfg react env hc).1⟩
+
+/-- the same for the other connect outcomes that never reach a selector (`_connect` failed):
+    nothing to release, nothing released -/
+theorem no_selector_without_connection (cfg : Cfg) (react : React) (env : List EnvStep)
+    (hs : cfg.connect = .socketFail ∨ cfg.connect = .otherFail) :
+    (runAll cfg react env).selOpen = false ∧ Obs.selClose ∉ (runAll cfg react env).trace := by
+  have h := Monitor.runAll_noSelector cfg react env (fun p hp => by rcases hs with hs | hs <;> (rw [hs] at hp; cases hp))
+  exact ⟨h.1, h.2⟩
+
+/-- non-vacuity: the application leaves its `with ws:` block at the `Disconnected('error')` that
+    reports the selector failure (third event), and one that drops the generator at `Connected`
+    (second event) — socket closed once, no `selClose` -/
+example :
+    (runAll { connect := .selFail false }
+      (fun hist => if hist.length = 3 then [.abandon true] else []) [.wait 1 none]).trace
+      = [.ev (.disconnected "error" false), .sockClose, .ev (.connected false), .wr [], .ev .connecting] := by
+  decide
+example :
+    (runAll { connect := .selFail false }
+      (fun hist => if hist.length = 2 then [.abandon false] else []) []).trace
+      = [.sockClose, .ev (.connected false), .wr [], .ev .connecting] := by
+  decide
+
+/-- for comparison, an ordinary connection whose `selector.wait` raises, abandoned at the resulting
+    `Disconnected('error')`: the same events, but there was a selector and `finally` closes it -/
+example :
+    (runAll {} (fun hist => if hist.length = 3 then [.abandon false] else []) [.selErr]).trace
+      = [.selClose, .ev (.disconnected "error" false), .sockClose, .ev (.connected false), .wr [], .ev .connecting] := by
+  decide
 
 /-- The source has the structure the repaired model (`cleanup = true`) assumes — re-extracted
     from `/repo/lomond/session.py` on every run: the `Connected` event is yielded inside the last
